@@ -1,11 +1,30 @@
 INFO = {
     "level": "proof",
-    "level_text": "The two filters of the built-in trip dispatcher are verified as closures captured from the real enclosing functions (two levels of nesting), for all states: a request is offered to the matching iff it has no dispatched vehicle and (when matching per fleet) grants access to that fleet; a vehicle is offered only if its activity's name is in the configured dispatchable states, its driver is on shift, it passes the fleet-membership test and its remaining range exceeds the thresholds. AssignmentSolution.add and the request sort key (-value, id) (C01) are under contract. find_assignment itself is under contract (numpy table as a functional 2-D array of the executor, two nested loop invariants, one fold invariant): for all assignee / target tuples and every finite cost function, the table handed to scipy holds exactly cost_fn(assignees[i], targets[j]) in every cell (no cell is left at, or replaced by, the infinity placeholder), the pairs returned are scipy's (row, column) pairs mapped back to the ids of those very entities, their number is min(n, m) and solution_cost is the sum of the table cells of the pairs. Additionally a bounded stand-in (labelled bounded, not counted among the discharged obligations) runs the real function on every cost table of shape up to 3x3 over a small set of cost values and compares with brute force.",
+    "level_text": "The cost the dispatcher minimises is the grid distance: every find_assignment call in the dispatcher passes assignment_ops.h3_distance_cost (call-site rule on the real AST), whose contract is h3.h3_distance of the two cells. The two filters of the built-in trip dispatcher are verified as closures captured from the real enclosing functions (two levels of nesting), for all states: a request is offered to the matching iff it has no dispatched vehicle and (when matching per fleet) grants access to that fleet; a vehicle is offered only if its activity's name is in the configured dispatchable states, its driver is on shift, it passes the fleet-membership test and its remaining range exceeds the thresholds. AssignmentSolution.add and the request sort key (-value, id) (C01) are under contract. find_assignment itself is under contract (numpy table as a functional 2-D array of the executor, two nested loop invariants, one fold invariant): for all assignee / target tuples and every finite cost function, the table handed to scipy holds exactly cost_fn(assignees[i], targets[j]) in every cell (no cell is left at, or replaced by, the infinity placeholder), the pairs returned are scipy's (row, column) pairs mapped back to the ids of those very entities, their number is min(n, m) and solution_cost is the sum of the table cells of the pairs. Additionally a bounded stand-in (labelled bounded, not counted among the discharged obligations) runs the real function on every cost table of shape up to 3x3 over a small set of cost values and compares with brute force.",
     "level_note": "minimality of scipy's assignment is cross-checked only by the bounded stand-in (every table up to 3x3 against brute force; labelled bounded); distinctness of paired vehicles/requests, size = min of the two counts and minimality of the total grid distance are the assumed contract of scipy.optimize.linear_sum_assignment; costs are assumed finite (the dispatcher's cost is the h3 grid distance); float('inf') / float('-inf') are two constants that are only compared; numpy stores into the local table are modelled as functional updates (table[i][j] = v, table[table == x] = v).",
     "trusted_base": ["scipy.optimize.linear_sum_assignment returns a minimum-cost assignment of size min(n, m) with distinct rows and columns (assumed library contract; minimality is not re-proved)", "numpy array semantics of np.full, element store, masked store, element read (modelled as a functional 2-D array)"],
     "assumptions": [],
     "not_decided": ["optimality of scipy's assignment (assumed; cross-checked by brute force only within the bound of the stand-in)", "cost functions returning infinity"],
 }
+
+
+def _cost_function_obligation(repo):
+    """every find_assignment call of the built-in dispatcher minimises the grid distance: its cost function argument is
+    assignment_ops.h3_distance_cost (whose contract is `h3.h3_distance of the two cells`)"""
+    import ast
+    path = "nrel/hive/dispatcher/instruction_generator/dispatcher.py"
+    bad, n = [], 0
+    for node in ast.walk(repo.modules[path].tree):
+        if isinstance(node, ast.Call) and ast.unparse(node.func).endswith("find_assignment"):
+            n += 1
+            arg = node.args[2] if len(node.args) > 2 else next((k.value for k in node.keywords if k.arg == "cost_fn"), None)
+            txt = ast.unparse(arg) if arg is not None else "<missing>"
+            if txt not in ("assignment_ops.h3_distance_cost", "h3_distance_cost"):
+                bad.append(f"line {node.lineno}: cost function {txt}")
+    ok = n > 0 and not bad
+    return {"id": "C12.cost_function_is_grid_distance.Dispatcher.generate_instructions", "kind": "call-site-rule",
+            "status": "proved" if ok else "refuted", "backend": "ast-rule", "secs": 0.0, "props": ["C12"],
+            "detail": "" if ok else ("; ".join(bad) or "no find_assignment call found in the dispatcher")}
 
 
 def extra_obligations(repo, world, ex, R, tier, timeout_ms):
@@ -19,9 +38,10 @@ def extra_obligations(repo, world, ex, R, tier, timeout_ms):
     t0 = time.time()
     p = subprocess.run(cmd, capture_output=True, text=True, cwd=hive, env=dict(os.environ, PYTHONPATH=hive), timeout=3000)
     out = p.stdout.strip().splitlines()
+    cost_ob = _cost_function_obligation(repo)
     hit = any(l.startswith("REPRODUCED") for l in out)
     ok = (not hit) and p.returncode == 0 and any(l.startswith("not reproduced") for l in out)
-    return [{"id": "C12.bounded.find_assignment.all_tables_up_to_3x3", "kind": "bounded",
+    return [cost_ob, {"id": "C12.bounded.find_assignment.all_tables_up_to_3x3", "kind": "bounded",
              "status": "held" if ok else ("refuted" if hit else "error"), "backend": "native-exhaustive-enumeration",
              "secs": round(time.time() - t0, 2), "props": ["C12"],
              "bound": f"every n x m cost table, n, m <= 3, cost values in {{{', '.join(vals)}}}: one-to-one, size = min(n, m), ids mapped back, "
